@@ -53,6 +53,9 @@ inductive Ax where
   /-- a USER-DEFINED aggregator with two bound arguments (harness `common.rs`): `argmin(cost, item)` returns the `item` of the
   lexicographically least `(cost, item)` pair; nothing on an empty input -/
   | argmin
+  /-- a USER-DEFINED aggregator that returns TWO values, the least and the greatest of the column (nothing on an empty input): the rule
+  fires once per value -/
+  | minmax
 deriving Repr, DecidableEq
 
 /-- lattice column types of generated programs -/
@@ -107,6 +110,10 @@ def evalAx : Ax → List Tuple → List Tuple
   | .min, bag => (Agg.aggMin (bag.map fun t => intOf (t.headD .unit))).toList.map fun m => [.int m]
   | .max, bag => (Agg.aggMax (bag.map fun t => intOf (t.headD .unit))).toList.map fun m => [.int m]
   | .not, bag => (Agg.aggNot bag.length).map fun _ => []
+  | .minmax, bag =>
+    match Agg.aggMin (bag.map fun t => intOf (t.headD .unit)), Agg.aggMax (bag.map fun t => intOf (t.headD .unit)) with
+    | some a, some b => [[.int a], [.int b]]
+    | _, _ => []
   | .argmin, bag =>
     match Agg.aggMin (bag.map fun t => intOf (t.headD .unit)) with
     | none => []
